@@ -732,6 +732,9 @@ def oracle(h, obs, spec, table):
         for e in o["events"]:
             if e["e"] == "errorf" and e["kind"] == "other":
                 bad("unclassified Errorf")
+        if o["out"] == "panic" and o.get("class") == "ctor":
+            bad("the generated constructor did more than wiring t: %s" % o.get("msg"))
+            break
         if o["out"] == "panic" and o.get("class") in ("other", None):
             bad("unclassified panic: %s" % o.get("msg"))
         if s["op"] in ("setbuf", "mutate", "terrorf"):
@@ -973,7 +976,7 @@ def run_histories(mod, hs):
 def symptom_class(msg):
     for needle, cls in (("received", "callback-args"), ("ran more than once", "callback-count"), ("expected exactly", "callback-count"),
                         ("configured", "return"), ("did not fail the test", "unmatched"), ("naming the method", "noreturn"),
-                        ("cleanup", "cleanup"), ("unclassified", "unclassified"), ("refuse func", "onfunc"), ("registration", "registration")):
+                        ("generated constructor", "constructor"), ("cleanup", "cleanup"), ("unclassified", "unclassified"), ("refuse func", "onfunc"), ("registration", "registration")):
         if needle in msg:
             return cls
     return "other"
